@@ -176,9 +176,9 @@ class MD6(object):
             W[25:41] = C
             W[41:89] = B[i]
             C = self.f(W)
-        h = concat(list(C)[::-1])
+        h = Bits(b''.join((pack(c,'>L') for c in C)))>>(1024-self.size)
         h.size = self.size
-        return pack(h,'>L')
+        return h.bytes()
 
     def PAR(self,l,M,bitlen=None):
         pad = Nullpadding(4096)
